@@ -42,4 +42,48 @@ theorem announced_ok (c : Ctx) (h : regionOK c = true) : announcedOk c (announce
   · simp [announcedOk, announced, drawRange, Ctx.regionCrosses, Loc.parts, Loc.start, Loc.end]
   · simp [announcedOk, announced, drawRange, Ctx.regionCrosses, Loc.parts, Ctx.lastPart]
 
+/-! ### overlap ↔ intervals -/
+
+theorem partsOverlap_false {a b : Part} (h : partsOverlap a b = false) : a.hi ≤ b.lo ∨ b.hi ≤ a.lo := by
+  simp only [partsOverlap, Part.mem, Bool.or_eq_false_iff, Bool.and_eq_false_iff,
+    decide_eq_false_iff_not] at h
+  omega
+
+/-- every part of the first location lies entirely before or after every part of the second -/
+def Apart (a b : Loc) : Prop := ∀ p ∈ a.parts, ∀ q ∈ b.parts, p.hi ≤ q.lo ∨ q.hi ≤ p.lo
+
+theorem Apart.symm {a b : Loc} (h : Apart a b) : Apart b a :=
+  fun q hq p hp => (h p hp q hq).symm
+
+theorem collOK_parts {L : Int} {l : Loc} (h : collOK L l = true) :
+    ∀ p ∈ l.parts, 0 ≤ p.lo ∧ p.lo < p.hi ∧ p.hi ≤ L := by
+  rcases collOK_cases h with ⟨p, rfl, h1, h2, h3⟩ | ⟨s, e, rfl, h1, h2, h3⟩
+  · intro q hq
+    simp only [Loc.parts, List.mem_singleton] at hq
+    subst hq; exact ⟨h1, h2, h3⟩
+  · intro q hq
+    simp only [Loc.parts, List.mem_cons, List.not_mem_nil, or_false] at hq
+    rcases hq with rfl | rfl
+    · simp only; omega
+    · simp only; omega
+
+theorem apart_of_noOverlap {a b : Loc} (h : locationsOverlap a b = false) : Apart a b := by
+  intro p hp q hq
+  have hpq : partsOverlap p q = false := by
+    simp only [locationsOverlap, List.any_eq_false] at h
+    have := h p hp
+    simp only [List.any_eq_true, not_exists, not_and, Bool.not_eq_true] at this
+    exact this q hq
+  exact partsOverlap_false hpq
+
+theorem Apart.not_sharesBase {a b : Loc} (h : Apart a b) : ¬ SharesBase a b := by
+  rintro ⟨i, hi, hj⟩
+  simp only [Loc.mem, List.any_eq_true] at hi hj
+  obtain ⟨p, hp, hpi⟩ := hi
+  obtain ⟨q, hq, hqi⟩ := hj
+  simp only [Part.mem, Bool.and_eq_true, decide_eq_true_eq] at hpi hqi
+  have := h p hp q hq
+  omega
+
+
 end ASV.Packing
